@@ -195,3 +195,7 @@ EXTRA["C17"] = EXTRA.get("C17", []) + [
 EXTRA["C17"] = EXTRA.get("C17", []) + [
     M("pow-negative-target-accepted", "block.py", "        if self.bits[2] & 0x80 or target == 0 or target >= 1 << 256:\n", "        if target == 0 or target >= 1 << 256:\n", ["C17.21"], "compact sign bit read as magnitude (F44 undone in part)"),
 ]
+
+EXTRA["C15"] = EXTRA.get("C15", []) + [
+    M("one-share-for-threshold-1", "shamir.py", "            return [(i, secret) for i in range(n)]\n", "            return [(0, secret)]\n", ["C15.17"], "1-of-n yields one share (F45 undone)"),
+]
